@@ -46,7 +46,25 @@ static bool read_str(const uint8_t *p, size_t n, size_t &pos, std::string &out) 
     return true;
 }
 
-static void check_list(Decoded &d, const std::vector<size_t> &lst, const char *what) {
+// repaired files: follow the links from the first chunk; chunks of the kind that are not linked (leftovers of the interrupted writer) are tolerated
+static void check_list_linked(Decoded &d, std::vector<size_t> &lst, const char *what) {
+    if (lst.empty()) return;
+    std::vector<size_t> linked; size_t cur = lst[0]; uint64_t prev_off = 0; size_t guard = 0;
+    while (guard++ <= d.chunks.size()) {
+        const Chunk &c = d.chunks[cur];
+        if (c.prev != prev_off) { d.err("list_prev", "%s: chunk @%llu item_prev=%llu expected %llu", what, (unsigned long long) c.off, (unsigned long long) c.prev, (unsigned long long) prev_off); break; }
+        linked.push_back(cur);
+        if (!c.next) break;
+        auto it = d.by_off.find(c.next);
+        if (it == d.by_off.end() || c.next <= c.off) { d.err("list_next", "%s: chunk @%llu item_next=%llu does not lead to a later chunk", what, (unsigned long long) c.off, (unsigned long long) c.next); break; }
+        if (std::find(lst.begin(), lst.end(), it->second) == lst.end()) { d.err("list_next", "%s: chunk @%llu item_next=%llu leads to a chunk of another list", what, (unsigned long long) c.off, (unsigned long long) c.next); break; }
+        prev_off = c.off; cur = it->second;
+    }
+    lst = linked;
+}
+
+static void check_list(Decoded &d, std::vector<size_t> &lst, const char *what) {
+    if (d.repaired_mode) { check_list_linked(d, lst, what); return; }
     for (size_t i = 0; i < lst.size(); ++i) {
         const Chunk &c = d.chunks[lst[i]];
         uint64_t exp_prev = i ? d.chunks[lst[i - 1]].off : 0, exp_next = (i + 1 < lst.size()) ? d.chunks[lst[i + 1]].off : 0;
@@ -195,7 +213,7 @@ void decode(const std::vector<uint8_t> &f, Decoded &d, bool expect_closed) {
         }
         for (int tt = 0; tt < 4; ++tt) {
             bool expected = s.sigtype == 0 ? (tt == 0 || tt == 2 || tt == 3) : (tt == 1 || tt == 2);
-            if (expected && (!s.has_track_def[tt] || !s.has_head[tt]) && d.closed) d.err("track_def", "signal %d track %d: definition/head missing", s.id, tt);
+            if (expected && (!s.has_track_def[tt] || !s.has_head[tt]) && d.closed && !d.repaired_mode) d.err("track_def", "signal %d track %d: definition/head missing", s.id, tt);
             char what[64];
             snprintf(what, sizeof what, "signal %d track %d data list", s.id, tt); check_list(d, s.data_chunks[tt], what);
             // head table
